@@ -545,7 +545,10 @@ def c05_bulk_key(aid, events, outs):
 
 def c05_assign_key(aid, events, outs):
     o = {x["key"]: x["val"] for x in outs}
-    return "c05:%s:%s:%s" % (aid, o.get("change", "?"), o.get("context", "?"))
+    stale = (o.get("left-stale") or "").split(": ")[-1].split(",")
+    if aid == "compat-reader-assigns-every-field" and stale != [""] and not any(m in ("value", "value.f") for m in stale):
+        return "c05:%s:fields-the-previous-version-lacks" % aid   # whatever else changed in the record
+    return "c05:%s:%s" % (aid, o.get("change", "?"))
 
 
 C05_BULK_ASSUME = ["meaning of the runtime combinators (which of them have the `if constexpr (IsTriviallySerializable<T>::value)` bulk path, and the runtime's own IsTriviallySerializable "
